@@ -62,6 +62,5 @@ MANIFEST = dict(
                 "from intact replies (C15_bmc_propagates); the CURRENT reader is refuted on all three counts with concrete streams "
                 "(C15_read_total_refuted, C15_error_unmangled_refuted).  Tie to /repo: real bmc()/pdr() runs against z3 behind a fault-injecting "
                 "proxy, every response point x every fault kind, compared with the extracted model on the recorded bytes."),
-    level_note=("Trusted: Coq kernel; hand-written model tied by differential execution; shim + watchdog + OCaml oracle. Findings: spin on "
-                "end-of-stream inside an open reply, error-message slice panics/mangles, '(' inside a message blocks."),
+    level_note="Trusted: Coq kernel; hand-written model tied by differential execution; shim + watchdog + OCaml oracle. Repaired in /repo through this check: spin on end-of-stream inside an open reply, error-message slice panics/mangles, '(' inside a message blocks, parser todo!s, unknown answers in bmc. Open finding: a multi-line error message arrives with a blank after each line break. Blocking on a LIVE solver whose reply is lexically open is the documented behaviour (C15_blocked_only_on_open_reply).",
 )
